@@ -302,9 +302,26 @@ def check_helpers(r, tag, stats, rng):
     # per-type results (the per-type results are judged against the accepted steps by the callers)
     types = [t for t in get_list_of_types(stats) if t != '_recomputed']
     procs = sorted({k.process for k in keys if k.process is not None})
+    # the dictionary returned by run() is the record of the run: no query may add, drop or replace entries of it
+    before = dict(stats)
+
+    def untouched(what):
+        same = len(stats) == len(before) and all(k in stats and stats[k] is v for k, v in before.items())
+        r.check(same, 'query-leaves-statistics-unchanged', f'{tag}: {what} changed the statistics it was asked about: {len(before)} entries before, {len(stats)} after')
+        if not same:
+            # restore, so that the remaining relations are judged on the record of the run
+            stats.clear()
+            stats.update(before)
+
     for sel in [dict()] + [dict(process=p_) for p_ in procs[:3]] + [dict(level=0)]:
         try:
             multi = {k for k in filter_stats(stats, recomputed=False, **sel).keys() if k.type != '_recomputed'}
+            untouched(f'filter_stats(recomputed=False, {sel})')
+            if not sel and all(k.time is not None for k in keys):
+                get_sorted(stats, recomputed=False, sortby='time')
+                untouched('get_sorted(recomputed=False)')
+                filter_stats(stats, recomputed=True)
+                untouched('filter_stats(recomputed=True)')
         except TypeError:
             continue  # records without a time cannot take part in the time-based bookkeeping
         union = set()
@@ -329,6 +346,7 @@ def check_helpers(r, tag, stats, rng):
             continue
         s2 = get_sorted(stats, sortby='time', **sel)
         r.check(len(s2) == len(exp), 'get-sorted-is-filter-then-sort', f'{tag}: get_sorted({sel}) has {len(s2)} entries, expected {len(exp)}')
+    untouched('a sequence of filter_stats / sort_stats / get_sorted queries')
 
 
 def run_adaptive(case, r):
@@ -477,7 +495,7 @@ def finalize(agg):
     out = []
     c = agg['counters']
     for k in ('oracle:one-record-per-attempt', 'oracle:record-keyed-by-true-time', 'oracle:work-equals-calls', 'oracle:counter-conservation', 'oracle:recomputed-false-is-accepted-steps',
-              'oracle:filter-is-set-comprehension', 'oracle:sort-ascending', 'oracle:niter-equals-iteration-callbacks'):
+              'oracle:filter-is-set-comprehension', 'oracle:sort-ascending', 'oracle:niter-equals-iteration-callbacks', 'oracle:query-leaves-statistics-unchanged'):
         if c.get(k, 0) == 0:
             out.append(f'monitor {k} never evaluated')
     if c.get('rejected_attempts', 0) == 0:
